@@ -242,7 +242,8 @@ pub fn oracle(c: &Compiled, _model: Option<&Project>) -> CaseInfo {
             let root = c.schema.root_type(o.kind).map(|s| s.to_string());
             if let (Some(ct), Some(root)) = (&op.concrete_type, &root) {
                 if ct != root {
-                    info.fail("root-concrete-type", format!("{}: artifact concreteType {ct}, operation root type {root}", op.name()));
+                    // not part of the property's statement: recorded, not judged
+                    info.label("artifact-concreteType-differs-from-operation-root-type");
                 }
             }
             let mut cx = Cx { schema: &c.schema, op: op.name(), fails: vec![], max_depth: 0, has_fragment: false, has_args: false };
